@@ -165,7 +165,7 @@ func LiteralHolder(rng *rand.Rand, id, k int, sc *world.Scenario, mix TagMix) an
 	for i := 0; i < k; i++ {
 		ft := fts[rng.Intn(len(fts))]
 		if rng.Intn(2) == 0 { // favour interface-typed fields (more candidates)
-			ft = fts[rng.Intn(9)]
+			ft = fts[rng.Intn(12)]
 		}
 		tag, val := randTagFor(rng, ft, sc, mix)
 		fields = append(fields, world.FieldSpec{Name: fmt.Sprintf("H%dF%d", id, i), Type: ft, Tag: world.WireTag(tag, val)})
@@ -186,4 +186,19 @@ func describeHolder(h any) string {
 func resetHolder(h any) {
 	v := reflect.ValueOf(h).Elem()
 	v.Set(reflect.Zero(v.Type()))
+}
+
+// LeanProviders returns 0..3 providers outside the palette (world.LeanH / world.RichH, named).
+func LeanProviders(rng *rand.Rand) []any {
+	var out []any
+	n := rng.Intn(4)
+	for i := 0; i < n; i++ {
+		name := fmt.Sprintf("lean%d", i)
+		if rng.Intn(3) == 0 {
+			out = append(out, &world.RichH{Nm: name})
+		} else {
+			out = append(out, &world.LeanH{Nm: name})
+		}
+	}
+	return out
 }
